@@ -37,6 +37,7 @@ type Site struct {
 	Func string `json:"func"` // optional: regexp on the function name
 	Kind string `json:"kind"` // "assign" | "cond"
 	Re   string `json:"re"`   // regexp on the printed left-hand side / condition
+	Re2  string `json:"re2"`  // kind switch: regexp on the variable assigned inside the clauses
 }
 
 type Spec struct {
@@ -390,6 +391,81 @@ func collect(p *pkgInfo, s Site) []found {
 	return out
 }
 
+// switch statements over an integer tag: per case clause the constant case values ([] = default) and the
+// last selector of the right-hand side assigned, inside the clause, to a variable matching the site's
+// second regexp (e.g. `switch options.Priority { case High: queue = p.mailbox.System ... }` -> ([1], "System"))
+type switchRow struct {
+	vals []string
+	sel  string
+}
+type switchTab struct {
+	loc  string
+	rows []switchRow
+}
+
+func collectSwitch(p *pkgInfo, s Site) []switchTab {
+	var out []switchTab
+	re := regexp.MustCompile(s.Re)
+	re2 := regexp.MustCompile(s.Re2)
+	var fre *regexp.Regexp
+	if s.Func != "" {
+		fre = regexp.MustCompile("^(" + s.Func + ")$")
+	}
+	for i, f := range p.files {
+		if s.File != "" && p.names[i] != s.File {
+			continue
+		}
+		for _, d := range f.Decls {
+			fd, ok := d.(*ast.FuncDecl)
+			if !ok || fd.Body == nil {
+				continue
+			}
+			if fre != nil && !fre.MatchString(fd.Name.Name) {
+				continue
+			}
+			ast.Inspect(fd.Body, func(n ast.Node) bool {
+				sw, ok := n.(*ast.SwitchStmt)
+				if !ok || sw.Tag == nil || !re.MatchString(show(p.fset, sw.Tag)) {
+					return true
+				}
+				tab := switchTab{loc: fmt.Sprintf("%s %s: switch %s", p.names[i], fd.Name.Name, show(p.fset, sw.Tag))}
+				assigned := false
+				for _, cl := range sw.Body.List {
+					cc := cl.(*ast.CaseClause)
+					row := switchRow{sel: "-"}
+					for _, e := range cc.List {
+						v := "None"
+						if tv, ok := p.info.Types[e]; ok && tv.Value != nil {
+							if z, ok := zlit(tv.Value); ok {
+								v = "Some " + z
+							}
+						}
+						row.vals = append(row.vals, v)
+					}
+					for _, st := range cc.Body {
+						as, ok := st.(*ast.AssignStmt)
+						if !ok || len(as.Lhs) != 1 || len(as.Rhs) != 1 || !re2.MatchString(show(p.fset, as.Lhs[0])) {
+							continue
+						}
+						r := show(p.fset, as.Rhs[0])
+						if k := strings.LastIndex(r, "."); k >= 0 {
+							r = r[k+1:]
+						}
+						row.sel = r
+						assigned = true
+					}
+					tab.rows = append(tab.rows, row)
+				}
+				if assigned {
+					out = append(out, tab)
+				}
+				return true
+			})
+		}
+	}
+	return out
+}
+
 type atomicOp struct {
 	loc, fn, op string
 	args        []string
@@ -523,6 +599,25 @@ func main() {
 	sitesReport := map[string]int{}
 	for _, s := range spec.Sites {
 		p := get(s.Pkg)
+		if s.Kind == "switch" {
+			tabs := collectSwitch(p, s)
+			sitesReport[s.Name] = len(tabs)
+			nsites += len(tabs)
+			fmt.Fprintf(&b, "(* site %s: switch /%s/ assigning /%s/ in %s %s %s *)\n", s.Name, s.Re, s.Re2, s.Pkg, s.File, s.Func)
+			fmt.Fprintf(&b, "Definition %s_tabs : list (string * list (list (option Z) * string)) := [", s.Name)
+			for i, t := range tabs {
+				if i > 0 {
+					b.WriteString(";")
+				}
+				var rows []string
+				for _, r := range t.rows {
+					rows = append(rows, fmt.Sprintf("([%s], %s)", strings.Join(r.vals, "; "), coqStr(r.sel)))
+				}
+				fmt.Fprintf(&b, "\n  (%s, [%s])", coqStr(t.loc), strings.Join(rows, "; "))
+			}
+			b.WriteString("].\n\n")
+			continue
+		}
 		if s.Kind == "atomic" {
 			ops := collectAtomic(p, s)
 			sitesReport[s.Name] = len(ops)
